@@ -163,6 +163,28 @@ def oracle(gens, name, n, full_unitary_upto, rng=None):
     return None
 
 
+def doc_diagnostic_hrqft(gens, nmax=6):
+    """Supplementary to the property (which only speaks about |0..0>): the docstring describes the circuit as Hadamards on
+    all qubits followed by the inverse QFT, i.e. the unitary F^dagger H^{(x)n} with F[y, x] = exp(2 pi i x y / N)/sqrt N.
+    Returns a description of the first basis input on which the generated circuit differs from that, or None."""
+    from qiskit.quantum_info import Operator
+    for n in range(1, nmax + 1):
+        try:
+            qc = strip(gens["hrqft"](n))[0]
+            U = Operator(qc).data
+        except Exception as ex:  # noqa
+            return "n=%d: %r" % (n, ex)
+        N = 2 ** n
+        idx = np.arange(N)
+        F = np.exp(2j * np.pi * np.outer(idx, idx) / N) / math.sqrt(N)
+        Hn = np.array([[(-1) ** bin(a & b).count("1") for b in range(N)] for a in range(N)], dtype=float) / math.sqrt(N)
+        dev = np.abs(U - F.conj().T @ Hn)
+        if dev.max() > TOL:
+            y, x = np.unravel_index(int(dev.argmax()), dev.shape)
+            return "n=%d: on the basis input x=%d the amplitude at y=%d differs from (inverse QFT . H^n) by %.3g" % (n, x, y, dev.max())
+    return None
+
+
 # ------------------------------------------------------------------------------------------------ model semantics, numerically
 TABLES_V = r"""
 From Coq Require Import List Bool Arith.
@@ -243,7 +265,7 @@ def main(argv):
     NT = 24 if quick else 64          # tie range
     NO = 10 if quick else 14          # oracle range
     NU = 8 if quick else 10           # full-unitary (Operator) range for qft
-    NS = 6 if quick else 8            # numeric validation of the model's gate semantics
+    NS = 8 if quick else 10           # numeric validation of the model's gate semantics
     ck.rule = ("correspondence cases = (generator, n): the instruction list of the real generator (operation class, qubit and "
                "clbit indices, cp angle recovered as an exact dyadic multiple of pi) against the model's list; every case "
                "with n >= 2 is non-trivial (distinct = distinct (generator, n)); oracle cases = (generator, n) simulated by "
@@ -264,6 +286,8 @@ def main(argv):
         if name in GENS and isinstance(n, int):
             print("replay: generator=%s n=%d -> oracle: %s" % (name, n, oracle(gens, name, n, NU, ck.rng) or "holds"))
             print("instructions:", run_gen(gens, name, n)[1][:40] if n <= 6 else "(omitted)")
+            if name == "hrqft":
+                print("docstring diagnostic (beyond the property):", doc_diagnostic_hrqft(gens) or "unitary equals (inverse QFT . H^n) for n <= 6")
         else:
             print("replay: nothing executable in", doc)
         return 0
@@ -296,6 +320,15 @@ def main(argv):
             r = dumps[(name, n)]
             ck.count(fam, 1, key=n if n >= 2 else None,
                      sample={"generator": name, "n": n, "instructions": [list(map(str, g)) for g in r[1][:6]] if r[0] == "ok" else r[1]})
+
+    # malformed stream (outside the domain n >= 1, informational): what the implementation does is recorded only
+    for badn in (-1, 2.5, "3"):
+        for name in GENS:
+            try:
+                gens[name](badn); r = "returned a circuit"
+            except Exception as ex:  # noqa
+                r = type(ex).__name__
+            ck.count("malformed_other", 1, sample={"generator": name, "n": repr(badn), "result": r})
 
     # ---- model side inside Coq
     def lst(r):
@@ -391,8 +424,14 @@ def main(argv):
             if found:
                 ck.report("oracle:" + kind, head + "; failing input n=%d: %s" % found, {"generator": kind, "n": found[0], "why": found[1]})
             else:
-                ck.report("corr:" + kind, head + "; the simulation oracle passes on every explored n",
-                          {"correspondence": "C18 instruction lists", "generator": kind, "n": where, "impl": [list(map(str, g)) for g in impl[1]][:200] if impl[0] == "ok" else impl[1]}, False)
+                extra = ""
+                if kind == "hrqft":
+                    d = doc_diagnostic_hrqft(gens)
+                    extra = ("; beyond the property (which only fixes the image of |0..0>), the circuit is no longer 'Hadamards then "
+                             "inverse QFT' as its docstring says: " + d) if d else "; the unitary still equals (inverse QFT . H^n) for n <= 6"
+                ck.report("corr:" + kind, head + "; the simulation oracle passes on every explored n" + extra,
+                          {"correspondence": "C18 instruction lists", "generator": kind, "n": where, "note": extra,
+                           "impl": [list(map(str, g)) for g in impl[1]][:200] if impl[0] == "ok" else impl[1]}, False)
     if sem_fail and not oracle_fail and not mismatches:
         ck.report("semantics", sem_fail, {"correspondence": "C18 gate semantics vs qiskit Operator", "why": sem_fail}, False)
     return ck.finish()
